@@ -84,7 +84,7 @@ int main(int argc, char **argv)
     static uint8_t pk_arena[3 * 4096] __attribute__((aligned(4096)));
     uint8_t *const out_mid = out;
     long idx = 0;
-    int v, i, j, t;
+    int v, i, j, t, tt;
     install_crash_handlers();
     if (!RUNNING_ON_VALGRIND) { fprintf(stderr, "h_ct must run under valgrind\n"); return 2; }
     fill_random(&r, key, sizeof key); fill_random(&r, nonce, 12); fill_random(&r, ad, sizeof ad); fill_random(&r, m, sizeof m);
@@ -116,7 +116,9 @@ int main(int argc, char **argv)
                 AE[v].e(c, &clen, m, mlen, ad, adlen, nonce, key);
                 PUBLIC(c, mlen + 8); PUBLIC(key, AE[v].ks); PUBLIC(m, mlen); PUBLIC(&clen, sizeof clen);
                 ++n_calls;
-                for (t = 0; t < verdicts; ++t) {
+                for (tt = 0; tt < (mlen ? verdicts : 2 * verdicts); ++tt) {
+                    /* a tag-only packet is opened a second time with a NULL output pointer (public: it is an argument value) */
+                    int nullout = tt >= verdicts; t = tt % verdicts;
                     /* t = 0 accept; 1..8 reject with tag byte t-1 wrong; 9 reject via body */
                     if (t == 9 && mlen == 0) continue;
                     /* where the packet lies is public too: every other verdict has its received tag laid across a page
@@ -125,9 +127,9 @@ int main(int argc, char **argv)
                     memcpy(out, c, mlen + 8);
                     if (t >= 1 && t <= 8) out[mlen + (size_t)(t - 1)] ^= 0x40;
                     if (t == 9) out[mlen / 2] ^= 0x01;
-                    shape("{\"h\":\"ct\",\"api\":\"%s-decrypt\",\"adlen\":%zu,\"mlen\":%zu,\"verdict\":\"%s\",\"site\":%d}", AE[v].name, adlen, mlen, t ? "reject" : "accept", t);
+                    shape("{\"h\":\"ct\",\"api\":\"%s-decrypt\",\"adlen\":%zu,\"mlen\":%zu,\"verdict\":\"%s\",\"site\":%d,\"null_output\":%d}", AE[v].name, adlen, mlen, t ? "reject" : "accept", t, nullout);
                     SECRET(key, AE[v].ks); n_secret_bytes += (size_t)AE[v].ks;
-                    rc = AE[v].d(m2, &ml2, out, mlen + 8, ad, adlen, nonce, key);
+                    rc = AE[v].d(nullout ? NULL : m2, &ml2, out, mlen + 8, ad, adlen, nonce, key);
                     PUBLIC(&rc, sizeof rc); PUBLIC(m2, mlen); PUBLIC(key, AE[v].ks); PUBLIC(&ml2, sizeof ml2);
                     ++n_calls;
                     if ((rc == 0) != (t == 0)) { printf("I unexpected verdict rc=%d for %s\n", rc, g_case); }
@@ -235,6 +237,28 @@ int main(int argc, char **argv)
                 tinyjambu_prng_free(&st);
                 n_calls += 7;
             }
+    }
+    /* ---- PRNG with the reseed limit raised: more than 256 blocks since the last reseed, so that the upper bytes of the
+     *      block counter take part in V = V + H + C + counter (the default limit never lets the counter pass 33) */
+    for (i = 0; i < 2; ++i, ++idx) {
+        tinyjambu_prng_state_t st;
+        ent_t e;
+        int rc;
+        if (!mine(&a, idx)) continue;
+        memset(&e, 0, sizeof e); e.s = 0x7777 + (uint64_t)idx; e.deliveries[0] = 32; e.deliveries[1] = 32; e.n = 2;
+        shape("{\"h\":\"ct\",\"api\":\"prng-raised-limit\",\"limit\":%d,\"generate\":9000}", i ? 1048576 : 16384);
+        rc = tinyjambu_prng_init_user(&st, ent_cb, &e, info, 10);
+        PUBLIC(&rc, sizeof rc);
+        tinyjambu_prng_set_reseed_limit(&st, i ? 1048576 : 16384);
+        tinyjambu_prng_generate(&st, out, 9000);             /* 282 blocks, no reseed */
+        PUBLIC(out, 9000);
+        SECRET(m, 20);
+        tinyjambu_prng_feed(&st, m, 20);
+        PUBLIC(m, 20);
+        tinyjambu_prng_generate(&st, out, 9000);             /* 564 blocks since the seed (i = 0: crosses the reseed at 512) */
+        PUBLIC(out, 9000);
+        tinyjambu_prng_free(&st);
+        n_calls += 6;
     }
     /* ---- PRNG seeded and reseeded from the SYSTEM source: the OS-provided bytes are marked secret inside getrandom() */
     for (i = 0; i < 2; ++i, ++idx) {
